@@ -173,7 +173,61 @@ func isSessionIQ(e *srv.Elem) bool {
 
 // negServe plays one connection's script. It returns when the script is exhausted and the
 // client stopped talking, or the connection ended.
-func negServe(w *tr.Writer, conn *srv.Conn, sc negConn, n int, opDone <-chan struct{}, sessUp *int32, handled *int32, lenient bool) {
+// negLink is the server side of one connection: a TCP stream or a WebSocket
+type negLink interface {
+	ReadElem(time.Duration) (*srv.Elem, error)
+	Write(string) error
+	Close()
+	StartTLS(tls.Certificate, time.Duration) error
+	RestartStream()
+}
+
+// A read whose context expires closes a nhooyr WebSocket connection: the link reads in a goroutine of its own and
+// ReadElem only waits on its channel, so that a timeout leaves the connection alone.
+type wsLink struct {
+	c  *srv.WSConn
+	ch chan wsRead
+}
+type wsRead struct {
+	e   *srv.Elem
+	err error
+}
+
+func newWSLink(c *srv.WSConn) wsLink {
+	l := wsLink{c: c, ch: make(chan wsRead, 64)}
+	go func() {
+		for {
+			e, err := c.ReadElem(time.Hour)
+			l.ch <- wsRead{e, err}
+			if err != nil {
+				return
+			}
+		}
+	}()
+	return l
+}
+
+func (l wsLink) ReadElem(d time.Duration) (*srv.Elem, error) {
+	select {
+	case r := <-l.ch:
+		return r.e, r.err
+	case <-time.After(d):
+		return nil, srv.ErrTimeout
+	}
+}
+func (l wsLink) Write(s string) error {
+	for _, f := range srv.WSFrames(s) {
+		if err := l.c.Write(f); err != nil {
+			return err
+		}
+	}
+	return nil
+}
+func (l wsLink) Close()                                        { l.c.Close() }
+func (l wsLink) StartTLS(tls.Certificate, time.Duration) error { return errors.New("no STARTTLS over WebSocket") }
+func (l wsLink) RestartStream()                                {}
+
+func negServe(w *tr.Writer, conn negLink, sc negConn, n int, opDone <-chan struct{}, sessUp *int32, handled *int32, lenient bool) {
 	authed := false
 	var pending *srv.Elem // an element read but not yet answered
 	pkiv := srv.GetPKI()
@@ -481,11 +535,50 @@ func negRunOne(w *tr.Writer, tid int, raw json.RawMessage, c *common) error {
 	defer curRun.Store(nil)
 	w.Emit(tr.Rec{"ev": "reset", "tid": tid, "cfg": sc.Cfg, "user": bytesOf(sc.User), "secret": bytesOf(sc.Secret)})
 
-	server, err := srv.Listen()
-	if err != nil {
-		return err
+	var accept func(time.Duration) (negLink, error)
+	var addr string
+	var wsCert atomic.Value // name of the certificate the wss: listener presents to the next handshake
+	wsCert.Store("valid")
+	if sc.Cfg.WS {
+		var wss *srv.WSServer
+		var err error
+		if sc.Cfg.WSS {
+			wss, err = srv.ListenWSS(func() *tls.Certificate {
+				if c, ok := srv.GetPKI().Certs[wsCert.Load().(string)]; ok {
+					return &c
+				}
+				return nil
+			})
+		} else {
+			wss, err = srv.ListenWS()
+		}
+		if err != nil {
+			return err
+		}
+		defer wss.Close()
+		addr = wss.Addr
+		accept = func(d time.Duration) (negLink, error) {
+			c, err := wss.Accept(d)
+			if err != nil {
+				return nil, err
+			}
+			return newWSLink(c), nil
+		}
+	} else {
+		server, err := srv.Listen()
+		if err != nil {
+			return err
+		}
+		defer server.Close()
+		addr = server.Addr
+		accept = func(d time.Duration) (negLink, error) {
+			c, err := server.Accept(d)
+			if err != nil {
+				return nil, err
+			}
+			return c, nil
+		}
 	}
-	defer server.Close()
 	var handled int32
 	router := xmpp.NewRouter()
 	router.NewRoute().HandlerFunc(func(s xmpp.Sender, p stanza.Packet) {
@@ -495,7 +588,7 @@ func negRunOne(w *tr.Writer, tid int, raw json.RawMessage, c *common) error {
 		}
 	})
 	cfg := &xmpp.Config{
-		TransportConfiguration: xmpp.TransportConfiguration{Address: server.Addr, ConnectTimeout: 1, Domain: "localhost"},
+		TransportConfiguration: xmpp.TransportConfiguration{Address: addr, ConnectTimeout: 1, Domain: "localhost"},
 		Jid:                    sc.User + "@localhost/res",
 		Insecure:               sc.Cfg.Insecure,
 		StreamManagementEnable: sc.Cfg.SM,
@@ -520,7 +613,7 @@ func negRunOne(w *tr.Writer, tid int, raw json.RawMessage, c *common) error {
 	}
 	xmpp.VerifSetStreamManagementResume(cfg, true)
 	var discCount int32
-	client, err := xmpp.NewClient(cfg, router, func(e error) { w.Emit(tr.Rec{"ev": "errcb"}) })
+	client, err := xmpp.NewClient(cfg, router, func(e error) { w.Emit(tr.Rec{"ev": "errcb", "msg": e.Error()}) })
 	if err != nil {
 		w.Emit(tr.Rec{"ev": "newclient", "ok": false})
 		w.Emit(tr.Rec{"ev": "fin"})
@@ -542,12 +635,35 @@ func negRunOne(w *tr.Writer, tid int, raw json.RawMessage, c *common) error {
 		opDone := make(chan struct{})
 		var sessUp int32
 		srvDone := make(chan struct{})
-		var sconn *srv.Conn
+		var sconn negLink
 		accepted := make(chan struct{})
+		if len(cs.Replies) > 0 && cs.Replies[0].Stage == "wsdial" {
+			// wss: the first thing the server does is to present a certificate to the TLS handshake of the dial
+			wsCert.Store(cs.Replies[0].V)
+			w.Emit(tr.Rec{"ev": "srvrep", "stage": "wsdial", "v": cs.Replies[0].V, "mechs": []string{}})
+			cs.Replies = cs.Replies[1:]
+		}
 		go func() {
 			defer close(srvDone)
-			conn, err := server.Accept(3 * time.Second)
-			if err != nil {
+			var conn negLink
+			var err error
+			if sc.Cfg.WS {
+				// a refused certificate means that no WebSocket connection ever arrives: stop waiting when the attempt is over
+				for i := 0; i < 30 && conn == nil; i++ {
+					conn, err = accept(100 * time.Millisecond)
+					if conn == nil {
+						select {
+						case <-opDone:
+							conn, err = accept(50 * time.Millisecond)
+							i = 30
+						default:
+						}
+					}
+				}
+			} else {
+				conn, err = accept(3 * time.Second)
+			}
+			if err != nil || conn == nil {
 				close(accepted)
 				return
 			}
